@@ -3,6 +3,7 @@ From Coq Require Import List String.
 From VQ.Gen Require Import w_rsvq.
 Import ListNotations.
 Open Scope string_scope.
-Lemma pin_w_rsvq : w_rsvq =
+Definition pinned_w_rsvq : list string :=
   [].
+Lemma pin_w_rsvq : w_rsvq = pinned_w_rsvq.
 Proof. reflexivity. Qed.
